@@ -95,8 +95,8 @@ type epochArm struct {
 
 // Unit is one verification unit: a function body (with inlined callees) and its obligations.
 type Unit struct {
-	setMemo map[string]Term // setof comprehensions by body
-	siteOrd map[string]map[token.Pos]int
+	setMemo     map[string]Term // setof comprehensions by body
+	siteOrd     map[string]map[token.Pos]int
 	eng         *Engine
 	u           *Universe
 	fn          *ssa.Function
@@ -337,7 +337,7 @@ func (un *Unit) Query(o *Obl, prelude string, model []string, extra ...Term) str
 	if len(model) > 0 {
 		b.WriteString("(get-value (" + strings.Join(model, " ") + "))\n")
 	}
-	return b.String()
+	return pruneQuery(b.String())
 }
 
 // ---------------------------------------------------------------------------------------
